@@ -73,8 +73,9 @@ Record stamp := mkStamp {
   st_needp : bool; st_pdone : bool;
   st_puid : Z (* 0 = no pod *); st_pnode : Z }.
 
-(* EWrite = a successful write of the job (Update or Status().Update); [eph] = the phase it persists
-   (0 for the other kinds); a job write carries the empty stamp *)
+(* EWrite = a successful write of the job (Update or Status().Update); [eph] = the phase it persists;
+   a job write carries the empty stamp. For EEvict [eph] = the UID of the pod object handed to the
+   evictor; 0 for the other kinds *)
 Inductive ekind := EEvict | ECreate | EDelete | EWrite.
 Record effect := mkEff { ek : ekind; eok : bool; est : stamp; eph : Z }.
 Definition stamp0 : stamp := mkStamp false 0 0 0 false 0 false false 0 0.
@@ -231,6 +232,8 @@ Definition stamp_of (r : option res) (p : option pod) : stamp :=
   | None => mkStamp false 0 0 0 false 0 false false pu pn
   end.
 
+Definition puid_of (p : option pod) : Z := match p with Some p => uid p | None => 0 end.
+
 (* the part of the environment a reconcile only reads *)
 Record renv := mkREnv { epod : option pod; ebp : Z; enow : Z; egen : Z }.
 
@@ -292,7 +295,7 @@ Definition st_recheck (p : pod) (c : ctx) : outc :=
 (* the eviction call itself and the Evicting condition that remembers it *)
 Definition st_evict_call (e : renv) (c : ctx) : outc :=
   let '(fail, c') := pop c in
-  let c'' := with_eff c' (mkEff EEvict (negb fail) (stamp_of (cr c) (epod e)) 0) in
+  let c'' := with_eff c' (mkEff EEvict (negb fail) (stamp_of (cr c) (epod e)) (puid_of (epod e))) in
   if fail then Stop c''
   else halt (updcond cEv set_cEv C_FALSE SS_EV RS_EVICTING c'').
 
